@@ -135,6 +135,9 @@ package common
 //@   loop 0 invariant rangeindex >= -1 && minScope == scope && forall(k, 0, rangeindex + 1,
 //@        !inLoc(scope.SubScopes[k].Loc.StartLine, scope.SubScopes[k].Loc.StartColumn, scope.SubScopes[k].Loc.EndLine, scope.SubScopes[k].Loc.EndColumn, line, column))
 //@   loop 0 decreases len(scope.SubScopes) - rangeindex
+// the scan of the children stops early only at a child that contains the cursor - not at a child that merely starts
+// below the line: children are not always registered in source order (fix 640e307)
+//@   loop 0 exits-early-only-if [scan-stops-only-at-a-child-containing-the-cursor] inLoc(subScope.Loc.StartLine, subScope.Loc.StartColumn, subScope.Loc.EndLine, subScope.Loc.EndColumn, line, column)
 //@ end
 
 //@ typeinv VarInfoList: len(self.VarVec) >= 1 && forall(k, 0, len(self.VarVec), self.VarVec[k] != nil)
@@ -290,6 +293,10 @@ package common
 //@   at call append#2 before assert[variable-range-starts-at-its-declaration] oneLocInfo.ReferFunc == nil ==>
 //@        oneSymbol.Loc.StartLine == oneLocInfo.Loc.StartLine && oneSymbol.Loc.StartColumn == oneLocInfo.Loc.StartColumn
 //@   at call append#0 before assert[plain-variable-range-is-its-declaration] oneSymbol.Loc == oneLocInfo.Loc
+// a function-valued local: the range starts no later than the declaring identifier (`local g = function() end`: until
+// the fix the range was the function expression alone and left g out)
+//@   at call append#2 before assert[function-range-starts-no-later-than-the-identifier] oneLocInfo.ReferFunc != nil ==>
+//@        oneSymbol.Loc.StartLine < oneLocInfo.Loc.StartLine || (oneSymbol.Loc.StartLine == oneLocInfo.Loc.StartLine && oneSymbol.Loc.StartColumn <= oneLocInfo.Loc.StartColumn)
 // a name declared several times in one scope is described by its LAST declaration there - the one that is in force
 // at the end of the scope and that members and function values are attached to
 //@   at call append#0 before assert[entry-describes-the-last-declaration-of-the-name] oneLocInfo == locVarinfoList.VarVec[len(locVarinfoList.VarVec) - 1]
@@ -317,6 +324,8 @@ package common
 //@        ==> (typeis(node1, "*ast.NilExp") <==> typeis(node2, "*ast.NilExp")) && (typeis(node1, "*ast.TrueExp") <==> typeis(node2, "*ast.TrueExp"))
 //@            && (typeis(node1, "*ast.FalseExp") <==> typeis(node2, "*ast.FalseExp")) && (typeis(node1, "*ast.VarargExp") <==> typeis(node2, "*ast.VarargExp"))
 //@   ensures[names-equal-iff-same-spelling] typeis(node1, "*ast.NameExp") ==> (result <==> typeis(node2, "*ast.NameExp") && streq(as(node1, "*ast.NameExp").Name, as(node2, "*ast.NameExp").Name))
+// (two float literals are the same when they denote the same number - no tolerance: fix 0c359c8)
+//@   ensures[floats-by-value] typeis(node1, "*ast.FloatExp") ==> (result <==> typeis(node2, "*ast.FloatExp") && as(node1, "*ast.FloatExp").Val == as(node2, "*ast.FloatExp").Val)
 //@   ensures[integers-and-strings-by-value] (typeis(node1, "*ast.IntegerExp") ==> (result <==> typeis(node2, "*ast.IntegerExp") && as(node1, "*ast.IntegerExp").Val == as(node2, "*ast.IntegerExp").Val))
 //@        && (typeis(node1, "*ast.StringExp") ==> (result <==> typeis(node2, "*ast.StringExp") && streq(as(node1, "*ast.StringExp").Str, as(node2, "*ast.StringExp").Str)))
 //@   ensures[operators-componentwise] (typeis(node1, "*ast.BinopExp") ==> (result <==> typeis(node2, "*ast.BinopExp") && as(node1, "*ast.BinopExp").Op == as(node2, "*ast.BinopExp").Op
@@ -435,6 +444,7 @@ package common
 // Injectivity WITHIN a kind (strconv.FormatInt, the text itself) is not stated.
 //@ func GetTableConstuctorKeyStr
 //@   props C20
+//@   ensures[integer-key-is-located-at-the-key] typeis(node, "*ast.IntegerExp") ==> loc == as(node, "*ast.IntegerExp").Loc
 //@   ensures[integer-keys-have-their-own-spelling] typeis(node, "*ast.IntegerExp") ==> len(strKey) > 4 && strKey[0] == 35 && strKey[1] == 105 && strKey[2] == 110 && strKey[3] == 116
 //@   ensures[string-keys-have-their-own-spelling] typeis(node, "*ast.StringExp") ==> len(strKey) == 4 + len(as(node, "*ast.StringExp").Str) && strKey[0] == 35 && strKey[1] == 115 && strKey[2] == 116 && strKey[3] == 114
 //@        && loc == as(node, "*ast.StringExp").Loc
@@ -478,4 +488,31 @@ package common
 //@   loop range:subMaps exits-early-only-if [cursor-is-within-the-columns-of-the-key-that-matched] findLoc.StartLine == line && findLoc.EndLine == line && (findLoc.StartColumn <= charactor || findLoc.StartColumn < 1) && charactor <= findLoc.EndColumn
 //@   loop range:tableVec exits-early-only-if [cursor-is-within-the-columns-of-the-nested-key] findLoc.StartLine == line && findLoc.EndLine == line && (findLoc.StartColumn <= charactor || findLoc.StartColumn < 1) && charactor <= findLoc.EndColumn
 //@   ensures[a-match-names-the-table-asked-about] !streq(firstStr, "") ==> streq(firstStr, strName)
+//@ end
+
+// ---- C18: a file's path without its extension (what a module name is matched against) ----
+// the cut is at a '.' of the FILE NAME: never inside a directory name (fix: /home/john.doe/proj broke every require)
+//@ func CompleteFilePathToPreStr
+//@   props C18
+//@   ensures[cut-is-inside-the-file-name] len(preStr) == 0 || (len(preStr) >= strLastIndex(pathFile, "/") + 1 && len(preStr) < len(pathFile) && pathFile[len(preStr)] == 46)
+//@   ensures[prefix-of-the-path] len(preStr) > 0 ==> sametext(preStr, pathFile) && off(preStr) == off(pathFile)
+//@ end
+
+// ---- C08: which files belong to the workspace ----
+// a file below ANY workspace folder is in (fix 17afbda: the prefix test for the additional folders was reversed)
+//@ func (*DirManager).IsInDir
+//@   props C08
+//@   ensures[file-below-an-additional-workspace-folder-is-in] len(d.mainDir) > 0 && exists(k, 0, len(d.subDirVec), hasPrefix(strFile, d.subDirVec[k])) ==> result
+//@   ensures[file-below-the-root-folder-is-in] len(d.mainDir) > 0 && hasPrefix(strFile, d.mainDir) ==> result
+//@   ensures[nothing-is-in-without-a-root] len(d.mainDir) == 0 ==> !result
+//@   loop range:d.subDirVec invariant forall(k, 0, rangeindex + 1, !hasPrefix(strFile, d.subDirVec[k]))
+//@ end
+
+// ---- C19: the range of a function-valued variable in an outline contains the identifier it names ----
+//@ func FuncSymbolLoc
+//@   props C19
+//@   sweep C01
+//@   ensures[identifier-in-front-of-the-function-is-inside-the-range] (varLoc.StartLine < funcLoc.StartLine || (varLoc.StartLine == funcLoc.StartLine && varLoc.StartColumn < funcLoc.StartColumn))
+//@        ==> result.StartLine == varLoc.StartLine && result.StartColumn == varLoc.StartColumn && result.EndLine == funcLoc.EndLine && result.EndColumn == funcLoc.EndColumn
+//@   ensures[otherwise-the-range-of-the-function] !(varLoc.StartLine < funcLoc.StartLine || (varLoc.StartLine == funcLoc.StartLine && varLoc.StartColumn < funcLoc.StartColumn)) ==> result == funcLoc
 //@ end
